@@ -122,7 +122,27 @@ class ivmpf(object):
                 return self.ctx.make_mpf((v, v))
         return self.ctx.convert(t)
 
+    def _rational(self, t):
+        # (p, q), q > 0, for an exact rational that is not a Python int
+        if hasattr(t, '_mpq_'):
+            return t._mpq_
+        if isinstance(t, numbers.Rational) and not isinstance(t, int_types):
+            return t.numerator, t.denominator
+        return None
+
+    def _scaled(self, q):
+        # the interval times the positive integer q, exactly
+        a, b = self._mpi_
+        q = from_int(q)
+        return libmp.mpf_mul(a, q), libmp.mpf_mul(b, q)
+
     def __contains__(self, t):
+        pq = self._rational(t)
+        if pq is not None:
+            # p/q is compared exactly: a*q <= p <= b*q
+            p = from_int(pq[0])
+            a, b = self._scaled(pq[1])
+            return mpf_le(a, p) and mpf_le(p, b)
         t = self._operand(t)
         if hasattr(t, '_mpci_'):
             # a complex number lies on the real line only if its
@@ -146,6 +166,12 @@ class ivmpf(object):
         return "mpi(%r, %r)" % (a, b)
 
     def _compare(s, t, cmpfun):
+        pq = s._rational(t)
+        if pq is not None:
+            # An exact rational p/q is not widened to an enclosure: the
+            # interval is scaled by q (exactly) and compared with p
+            p = from_int(pq[0])
+            return cmpfun(s._scaled(pq[1]), (p, p))
         if not hasattr(t, "_mpi_"):
             try:
                 t = s._operand(t)
@@ -236,13 +262,14 @@ class ivmpc(object):
         return real_overlap and imag_overlap
 
     def __contains__(s, t):
-        t = s.ctx.convert(t)
+        # (an int or a float is an exact number, see ivmpf._operand)
+        t = s.real._operand(t)
         return t.real in s.real and t.imag in s.imag
 
     def _compare(s, t, ne=False):
         if not isinstance(t, s.ctx._types):
             try:
-                t = s.ctx.convert(t)
+                t = s.real._operand(t)
             except:
                 return NotImplemented
         if hasattr(t, '_mpi_'):
